@@ -125,7 +125,7 @@ CLAIMED = {
             '_write_to_nc_var / _read_from_nc_var, driven through the real _write_data) over a ghost NetCDF variable: values '
             'equal, exactly the species that were present (none lost, none invented), only the addressed row written, unset '
             'optional fields read back unset, missing required values refused; _create_dimensions gives the species dimension '
-            'exactly the data\'s species; _load_trajectory sizes the trajectory from any per-point field. One obligation is '
+            'exactly the data\'s species; _load_trajectory sizes the trajectory from any per-point field and reads every variable with the species list of its own file (the precondition of _read_from_nc_var checked at its call sites, two files with any pair of representative lists). One obligation is '
             'create_associated takes the new file\'s species from the first mapped result (unset optional fields allowed); the ghost variable '
             'masks fill values unless auto-masking was switched off on it (library default). '
             'open and recorded as a known finding (the species dimension is fixed by the first trajectory), hence level other.',
